@@ -38,7 +38,8 @@ def make_user_costs():
     class NScaledL2(BaseCost):
         """optimal: n * sum x^2 - (sum x)^2 ; fixed (integer theta): n * sum (x - theta)^2 -- exact on integer data"""
 
-        def __init__(self, param=None):
+        def __init__(self, param=None, weight=1):
+            self.weight = weight          # a hyper-parameter OTHER than `param`: every copy an adapter makes of the cost must carry it
             super().__init__(param)
 
         @property
@@ -54,13 +55,13 @@ def make_user_costs():
         def _evaluate_optim_param(self, starts, ends):
             n = (ends - starts).reshape(-1, 1)
             a, q = self._S1[ends] - self._S1[starts], self._S2[ends] - self._S2[starts]
-            return n * q - a ** 2
+            return self.weight * (n * q - a ** 2)
 
         def _evaluate_fixed_param(self, starts, ends):
             n = (ends - starts).reshape(-1, 1)
             a, q = self._S1[ends] - self._S1[starts], self._S2[ends] - self._S2[starts]
             th = float(self.param)
-            return n * (q - 2 * th * a + n * th * th)
+            return self.weight * (n * (q - 2 * th * a + n * th * th))
 
     class RangeCost(BaseCost):
         """max - min of the slice per column (optimal mode only)"""
@@ -178,15 +179,16 @@ def run(ctx):
                         ad_meta.append({"adapter": "LocalAnomalyScore", "cost": cname, "X": X.tolist(), "cut": [s, a, b, e], "column": j, "impl": float(got[j])})
                     ctx.case({"ad": "las", "c": cname, "X": X.tolist(), "cut": [s, a, b, e]}, nontrivial=True)
             theta = rng.randint(-3, 3)
-            sv = Saving(NScaledL2(param=theta)).fit(X)
+            wgt = rng.choice([1, 3, 7])
+            sv = Saving(NScaledL2(param=theta, weight=wgt)).fit(X)
             for _ in range(3):
                 s = rng.randint(0, n - 1)
                 e = rng.randint(s + 1, n)
                 got = sv.evaluate(np.asarray([[s, e]]))[0]
                 for j in range(p):
                     col = X[:, j]
-                    ad.append(f"(AdSaving {zlit(nl2(col[s:e], theta))} {zlit(nl2(col[s:e]))} {zlit(got[j])})")
-                    ad_meta.append({"adapter": "Saving", "cost": f"NScaledL2({theta})", "X": X.tolist(), "cut": [s, e], "column": j, "impl": float(got[j])})
+                    ad.append(f"(AdSaving {zlit(wgt * nl2(col[s:e], theta))} {zlit(wgt * nl2(col[s:e]))} {zlit(got[j])})")
+                    ad_meta.append({"adapter": "Saving", "cost": f"NScaledL2({theta}, weight={wgt})", "X": X.tolist(), "cut": [s, e], "column": j, "impl": float(got[j])})
                 ctx.case({"ad": "sv", "X": X.tolist(), "cut": [s, e], "th": theta}, nontrivial=s > 0 or e < n)
             # Saving / to_saving around a user SUBCLASS of the built-in L2Cost (baseline mean 0): 3 * (sum x)^2 / n, compared as n * value = 3 (sum x)^2
             for conv in ("Saving", "to_saving"):
